@@ -184,6 +184,9 @@ def compare(obs: List[Dict[str, Any]], exp: List[Dict[str, Any]], spans: List[Tu
 # ---------------------------------------------------------------------------
 # running the real code
 # ---------------------------------------------------------------------------
+_SHARED: Dict[str, Any] = {}
+
+
 def run_split(bib, text: str, how: str = "split"):
     """Returns (exception name or None, observed blocks)."""
     try:
@@ -194,6 +197,13 @@ def run_split(bib, text: str, how: str = "split"):
                 lib = bib.splitter.Splitter(text).split()
             elif how == "default":
                 lib = bib.parse_string(text)
+            elif how == "default_shared":
+                # one default stack (list AND middleware objects) built once and handed to every call of the run
+                if "stack" not in _SHARED:
+                    _SHARED["stack"] = bib.middlewares.parsestack.default_parse_stack()
+                lib = bib.parse_string(text, parse_stack=_SHARED["stack"])
+            elif how == "default_copy":
+                lib = bib.parse_string(text, parse_stack=bib.middlewares.parsestack.default_parse_stack(allow_inplace_modification=False))
             else:
                 lib = bib.parse_string(text, parse_stack=[])
     except core.Timeout:
@@ -294,7 +304,7 @@ def evaluate(bib, texts: List[str], how: str = "split", shards: int = 16, gramma
         elif rec["tiling_problem"] is not None:
             diff["tiling"] = rec["tiling_problem"]
         else:
-            diff = compare(rec["obs"], exp, rec["spans"], rec["text"], values=(how != "default"))
+            diff = compare(rec["obs"], exp, rec["spans"], rec["text"], values=(not how.startswith("default")))
             if r["obs"] == "tiling":
                 diff.setdefault("tiling", "TLC: Tiling(toks, observed ranges) is false")
             elif r["obs"] == "start_line":
